@@ -223,11 +223,16 @@ func (e *encoderMsgpackBytes) kArrayWMbs(rv reflect.Value, ti *typeInfo, isSlice
 		fn = e.kSeqFn(ti.elem)
 	}
 
+	elemNotAddr := !isSlice && e.h.NoAddressableReadonly && !rv.CanAddr()
+
 	j := 0
 	e.c = containerMapKey
 	e.e.WriteMapElemKey(true)
 	for {
 		rvv := rvArrayIndex(rv, j, ti, isSlice)
+		if elemNotAddr {
+			rvv = rvNotAddressable(rvv)
+		}
 		if builtin {
 			e.encodeIB(rv2i(baseRVRV(rvv)))
 		} else {
@@ -268,11 +273,16 @@ func (e *encoderMsgpackBytes) kArrayW(rv reflect.Value, ti *typeInfo, isSlice bo
 		fn = e.kSeqFn(ti.elem)
 	}
 
+	elemNotAddr := !isSlice && e.h.NoAddressableReadonly && !rv.CanAddr()
+
 	j := 0
 	e.c = containerArrayElem
 	e.e.WriteArrayElem(true)
 	for {
 		rvv := rvArrayIndex(rv, j, ti, isSlice)
+		if elemNotAddr {
+			rvv = rvNotAddressable(rvv)
+		}
 		if builtin {
 			e.encodeIB(rv2i(baseRVRV(rvv)))
 		} else {
@@ -649,6 +659,10 @@ func (e *encoderMsgpackBytes) kMap(f *encFnInfo, rv reflect.Value) {
 	}
 
 	var rvv = mapAddrLoopvarRV(f.ti.elem, vtypeKind)
+	if e.h.NoAddressableReadonly {
+
+		rvv = rvNotAddressable(rvv)
+	}
 
 	rtkey := f.ti.key
 	var keyTypeIsString = stringTypId == rt2id(rtkey)
@@ -671,6 +685,9 @@ func (e *encoderMsgpackBytes) kMap(f *encFnInfo, rv reflect.Value) {
 	}
 
 	var rvk = mapAddrLoopvarRV(f.ti.key, ktypeKind)
+	if e.h.NoAddressableReadonly {
+		rvk = rvNotAddressable(rvk)
+	}
 
 	var it mapIter
 	mapRange(&it, rv, rvk, rvv, true)
@@ -4303,11 +4320,16 @@ func (e *encoderMsgpackIO) kArrayWMbs(rv reflect.Value, ti *typeInfo, isSlice bo
 		fn = e.kSeqFn(ti.elem)
 	}
 
+	elemNotAddr := !isSlice && e.h.NoAddressableReadonly && !rv.CanAddr()
+
 	j := 0
 	e.c = containerMapKey
 	e.e.WriteMapElemKey(true)
 	for {
 		rvv := rvArrayIndex(rv, j, ti, isSlice)
+		if elemNotAddr {
+			rvv = rvNotAddressable(rvv)
+		}
 		if builtin {
 			e.encodeIB(rv2i(baseRVRV(rvv)))
 		} else {
@@ -4348,11 +4370,16 @@ func (e *encoderMsgpackIO) kArrayW(rv reflect.Value, ti *typeInfo, isSlice bool)
 		fn = e.kSeqFn(ti.elem)
 	}
 
+	elemNotAddr := !isSlice && e.h.NoAddressableReadonly && !rv.CanAddr()
+
 	j := 0
 	e.c = containerArrayElem
 	e.e.WriteArrayElem(true)
 	for {
 		rvv := rvArrayIndex(rv, j, ti, isSlice)
+		if elemNotAddr {
+			rvv = rvNotAddressable(rvv)
+		}
 		if builtin {
 			e.encodeIB(rv2i(baseRVRV(rvv)))
 		} else {
@@ -4729,6 +4756,10 @@ func (e *encoderMsgpackIO) kMap(f *encFnInfo, rv reflect.Value) {
 	}
 
 	var rvv = mapAddrLoopvarRV(f.ti.elem, vtypeKind)
+	if e.h.NoAddressableReadonly {
+
+		rvv = rvNotAddressable(rvv)
+	}
 
 	rtkey := f.ti.key
 	var keyTypeIsString = stringTypId == rt2id(rtkey)
@@ -4751,6 +4782,9 @@ func (e *encoderMsgpackIO) kMap(f *encFnInfo, rv reflect.Value) {
 	}
 
 	var rvk = mapAddrLoopvarRV(f.ti.key, ktypeKind)
+	if e.h.NoAddressableReadonly {
+		rvk = rvNotAddressable(rvk)
+	}
 
 	var it mapIter
 	mapRange(&it, rv, rvk, rvv, true)
